@@ -75,6 +75,9 @@ type In struct {
 	Redo    []int  `json:"redo,omitempty"`    // doc indexes re-indexed at the end (moves them in index order)
 	Query   string `json:"query,omitempty"`   // all | x | xy
 	Seed    uint64 `json:"seed,omitempty"`    // probe choices
+	// MissingAnchors: only probe SearchAfter/SearchBefore from hits whose typed (number) sort
+	// value is missing, sending back their DecodedSort as the documentation says
+	MissingAnchors bool `json:"missing_anchors,omitempty"`
 }
 
 // ---------------------------------------------------------------- Coq printing
@@ -427,6 +430,27 @@ func genAPI(r *vrand.R, k int) In {
 	return in
 }
 
+// genAPIMissing: a typed numeric sort key + _id over documents of which some lack the field
+// and some have negative values; anchors are the hits with the missing value.
+func genAPIMissing(r *vrand.R, k int) In {
+	in := genAPI(r, k)
+	in.Sort = []Slot{{Kind: "field", Field: "n", Type: 2, Mode: vrand.Pick(r, []int{0, 1, 2}), MissingFirst: r.Bool(), Desc: r.Bool()},
+		{Kind: "id", Desc: r.Chance(1, 3)}}
+	if len(in.Docs) < 4 {
+		for i := len(in.Docs); i < 6; i++ {
+			in.Docs = append(in.Docs, Doc{ID: fmt.Sprintf("d%03d", i), T: "x", N: []float64{float64(r.Range(-3, 3))}})
+		}
+	}
+	for i := range in.Docs {
+		if i%3 == 1 {
+			in.Docs[i].N = nil
+		}
+	}
+	in.Query = "all"
+	in.MissingAnchors = true
+	return in
+}
+
 func gen(f vh.Flags, r *vrand.R, emit func(In)) {
 	nc := f.N(1500, 45000)
 	for k := 0; k < nc; k++ {
@@ -447,9 +471,40 @@ func gen(f vh.Flags, r *vrand.R, emit func(In)) {
 	for k := 0; k < f.N(2, 40); k++ {
 		emit(genColl(r, r.Range(1030, 1300), true))
 	}
+	if f.Tier == "thorough" {
+		// exhaustive: every arrival order of up to 6 matches over 3 score values, every (size, skip) <= 4,
+		// cycling through score-descending (the specialised comparison), score-ascending and score+_id
+		sorts := [][]Slot{{{Kind: "score", Desc: true}}, {{Kind: "score"}}, {{Kind: "score", Desc: true}, {Kind: "id", Desc: true}}}
+		for n := 0; n <= 6; n++ {
+			total := 1
+			for i := 0; i < n; i++ {
+				total *= 3
+			}
+			for code := 0; code < total; code++ {
+				ms := make([]Match, n)
+				for i, c := 0, code; i < n; i, c = i+1, c/3 {
+					ms[i] = Match{ID: fmt.Sprintf("e%d", (i*5)%7), Score: math.Float64bits(float64(c % 3)), Terms: [][][]byte{nil, nil}}
+				}
+				for size := 0; size <= 4; size++ {
+					for skip := 0; skip <= 4; skip++ {
+						so := sorts[(code+size+skip)%3]
+						mm := make([]Match, n)
+						for i := range ms {
+							mm[i] = ms[i]
+							mm[i].Terms = mm[i].Terms[:len(so)]
+						}
+						emit(In{Kind: "coll", Sort: so, Size: size, Skip: skip, Matches: mm})
+					}
+				}
+			}
+		}
+	}
 	na := f.N(150, 4500)
 	for k := 0; k < na; k++ {
 		emit(genAPI(r, k))
+	}
+	for k := 0; k < f.N(10, 300); k++ {
+		emit(genAPIMissing(r, k))
 	}
 }
 
@@ -714,8 +769,10 @@ func execAPI(in In) vh.Result {
 				keys[x] = p.bzs(args[x])
 			case s.Kind == "field" && (s.Type == 2 || s.Type == 3):
 				args[x] = h.DecodedSort[x]
-				if h.Sort[x] == search.HighTerm || h.Sort[x] == search.LowTerm {
-					return nil, "", false // a missing value has no decoded form a client could send back
+				if (h.Sort[x] == search.HighTerm || h.Sort[x] == search.LowTerm) != in.MissingAnchors {
+					// anchors with a missing typed value are probed by the MissingAnchors cases only
+					// (signature class search-after-missing-typed-value), all others by the rest
+					return nil, "", false
 				}
 			default:
 				args[x] = h.Sort[x]
@@ -767,6 +824,26 @@ func execAPI(in In) vh.Result {
 	addProbe(len(in.Docs)+5, cf.App("QFrom", cf.Nat(0)), full)
 	r := vrand.New(in.Seed)
 	sizes := []int{1, 2, 3, 4, 5, 7, 9, 10, 11, 12}
+	if in.MissingAnchors {
+		for _, h := range full.hits {
+			if direct != nil {
+				break
+			}
+			after(vrand.Pick(r, sizes), h)
+			before(vrand.Pick(r, sizes), h)
+		}
+		if direct != nil {
+			return vh.Result{Direct: direct, Class: "search-after-missing-typed-value"}
+		}
+		if nAfter+nBefore == 0 {
+			return vh.Result{Skip: true}
+		}
+		return vh.Result{
+			Term:       p.wrap(cf.App("CApi", sortT(in.Sort), msT, lst("probe", probes, func(t cf.T) cf.T { return t }))),
+			Nontrivial: true, Class: "search-after-missing-typed-value",
+			Hist: []string{"api-missing-anchor:" + in.Engine},
+		}
+	}
 	// From/Size pages tiling the listing
 	s1 := vrand.Pick(r, sizes)
 	for f, pages := 0, 0; f <= n && pages < 8 && direct == nil; f, pages = f+s1, pages+1 {
@@ -839,7 +916,10 @@ func main() {
 			"sorted/reversed/random arrival) through the real TopNCollector with 1-3 sort keys (score, _id, field asc/desc, type auto/string/number/date, " +
 			"mode first/min/max, missing first/last), size/skip across the slice/heap switch (size+skip>10) and PreAllocSizeSkipCap, with and without a search-after sentinel; " +
 			"API level: Index.Search on scorch(in-memory) and upsidedown indexes built in several batches with deletes and re-indexing, the implementation's own " +
-			"Size=all listing (in HitNumber order, with hit.Sort keys) is the match stream, probes = From/Size tilings, SearchAfter walks, SearchBefore walks, random anchors; " +
+			"Size=all listing (in HitNumber order, with hit.Sort keys) is the match stream, probes = From/Size tilings, SearchAfter walks, SearchBefore walks, random anchors " +
+			"(anchor values sent back as a client would: raw Sort for untyped keys, DecodedSort for number-typed keys, the score formatted exactly); " +
+			"a few dedicated cases (class search-after-missing-typed-value) anchor at hits whose number-typed sort value is missing; " +
+			"thorough tier adds every arrival order of <=6 matches over 3 score values for every size, skip <= 4; " +
 			"non-trivial: collector cases where something is evicted and something returned, API cases with >=3 hits and at least one SearchAfter/SearchBefore probe",
 		ShardSize: 100,
 		Preamble:  "From Coq Require Import Uint63.\n",
